@@ -251,6 +251,12 @@ func runL3(args []string) {
 			continue
 		}
 		outputs := prep["outputs"].([]any)
+		if len(outputs) == 0 {
+			// the output expression did not survive (e.g. it sits behind an unterminated
+			// comment): a statement without outputs scans nothing, not this layer's subject
+			dist["skipped:no-outputs"]++
+			continue
+		}
 		rev := map[int]reflect.Type{}
 		for id := range tbl.Descs {
 			rev[id] = nil
